@@ -192,15 +192,20 @@ def branch_costs(d, table, spec):
 def mix_cost(d, table, spec, shared, full, theta_of):
     """sum over the combiners (every call site for per-invocation metrics) of sum_i theta_i * branch cost, plus the fixed layers"""
     bc = branch_costs(d, table, spec)
-    tot, seen = Fraction(0), set()
+    tot, seen, sites = Fraction(0), set(), {}
     for pos, n in enumerate(d['ir']):
         if n[0] == 'choice':
             if shared and n[1] in seen:
                 continue
             seen.add(n[1])
             tot += sum((t * c for t, c in zip(theta_of(n[1], bc[n[1]]), bc[n[1]])), Fraction(0))
-        elif n[1][0] == 'M' and full:
-            tot += table[spec][d['names'][n[1][1]]][0]
+        elif n[1][0] == 'M':
+            # a fixed layer: once (first call site) for shared metrics, at EVERY call site with that site's output shape otherwise
+            name = d['names'][n[1][1]]
+            k = sites.get(name, 0)
+            sites[name] = k + 1
+            if full and not (shared and k > 0):
+                tot += table[spec][name][k]
     return tot
 
 
@@ -263,7 +268,20 @@ def strip(d):
 
 
 def is_diffres(d):
-    return any(it[0] == 'fixed' and it[1] == 'pool2' for it in d['chain'])
+    """a CHOICE block invoked twice with a resolution change (MaxPool2d(2)) between its invocations (open finding)"""
+    first, last = {}, {}
+    for pos, it in enumerate(d['chain']):
+        if it[0] == 'block':
+            first.setdefault(it[1], pos)
+            last[it[1]] = pos
+    pools = [pos for pos, it in enumerate(d['chain']) if it[0] == 'fixed' and it[1] == 'pool2']
+    return any(first[b] < p < last[b] for b in first for p in pools)
+
+
+def fixed_diffres(d):
+    """a FIXED layer invoked twice with a resolution change between its invocations"""
+    pools = [pos for pos, it in enumerate(d['chain']) if it[0] == 'fixed' and it[1] == 'pool2']
+    return any(it[0] == 'fixedref' and any(it[1] < p < pos for p in pools) for pos, it in enumerate(d['chain']))
 
 
 def check_obs(d, table, st, o, fails, tag):
@@ -284,6 +302,8 @@ def check_obs(d, table, st, o, fails, tag):
     det_hard = (all(eff_hard[b] for b in used) and not st.get('after') and not st.get('neartie')
                 and (not st['train'] or not any(d['blocks'][b]['gumbel'] for b in used)))
     sfx = ':after-cost-specification-reassignment' if (st.get('flip') or st.get('reassign_orig')) else ''
+    if fixed_diffres(d):
+        sfx = ':fixed-layer-invoked-at-different-resolutions' + sfx
     for s in metrics_of(st):
         shared = shared_of(st, s)
         for full in (False, True):
@@ -317,6 +337,8 @@ def check_obs(d, table, st, o, fails, tag):
                     key = 'hard-cost-differs-from-exported'
                     if is_diffres(d) and not shared:
                         key += ':block-invoked-at-different-resolutions'
+                    elif fixed_diffres(d):
+                        key += ':fixed-layer-invoked-at-different-resolutions'
                     fails.append((key, dict(info, what='%r: hard selection (winners %r): get_cost = %r, the same metric computed from scratch on the exported network = %r' % (w, win, c, float(sc)))))
 
 
@@ -336,6 +358,7 @@ def run(ctx):
                 'metrics params (shared) and ops (per invocation) x full_cost off/on; settings per network: constructed options at uniform coefficients, soft eval, soft/Gumbel train, '
                 'hard eval, hard/Gumbel-hard train, update_softmax_options(hard=...), temperatures {.05,.1,.5,1,2,5,20}, coefficients = distinct multiples of 1/16 (10% ties), '
                 '5 sequences forward -> update_softmax_options(hard / temperature) -> get_cost WITHOUT a new forward (soft pass then hard flag, hard pass then soft flag; cost compared on the theta_alpha observed at that moment), '
+                'fixed (non-choice) layers invoked twice, on the same and on two different resolutions (dedicated stream + 40% of the other networks), costed per invocation with the shape of each call site; '
                 'the first 3 settings use the options exactly as given to the SuperNetModule constructors (hard_softmax with and without gumbel_softmax), nothing called before; coefficients written by no_grad copy_ / .data = / .data.copy_ / .data[i] = / a new nn.Parameter after the previous forward; forward with or without autograd, selection frozen or not; '
                 '30% of the settings flip full_cost AFTER construction (False->True on the wrapper built without it and True->False on the other) and compare with the from-scratch values; '
                 '4 settings per network re-assign cost_specification on the LIVE wrapper to variants that differ only in `shared` (built-in functions, flipped flag; dict, dict, single spec, back), compared with a freshly constructed SuperNet and with the model; '
@@ -354,7 +377,7 @@ def run(ctx):
     for i in range(n_large):
         nets.append((G.gen_desc(rng, small=False), 'large'))
     for i in range(n_diff):
-        nets.append((G.gen_desc(rng, small=True, twice=True, diffres=True, tail=rng.random() < 0.3), 'diffres'))
+        nets.append((G.gen_desc(rng, small=True, twice=True, diffres=True, tail=rng.random() < 0.3, fixed_twice=False), 'diffres'))
     # Gumbel configuration per network: all blocks Gumbel / none / as drawn, constructor hard flag forced on half of the uniform ones,
     # so that every combination gumbel x hard x train/eval occurs with a forward pass before the cost
     for i, (d, _) in enumerate(nets):
@@ -363,6 +386,8 @@ def run(ctx):
                 blk['gumbel'] = (i % 3 == 0)
                 if i % 2 == 0:
                     blk['hard'] = True
+    for i in range(4 if ctx.quick else 16):   # a weight-shared FIXED layer on two resolutions (and, every third, on the same one)
+        nets.append((G.gen_desc(rng, nblocks=rng.randint(1, 2), small=(i % 2 == 0), fixed_twice=('same' if i % 3 == 2 else 'diffres'), twice=(i % 2 == 1)), 'fixed-twice'))
     work = [(d, gen_settings(rng, d, ctx.quick)) for d, _ in nets]
     from concurrent.futures import ProcessPoolExecutor
     with ProcessPoolExecutor(min(NPROC, 12)) as ex:
@@ -383,6 +408,10 @@ def run(ctx):
             gum = {b['gumbel'] for b in d['blocks']}
             if len(gum) == 1 and len(set(st['hard'])) == 1 and st.get('via_update') is None and not st.get('after'):
                 ctx.dist['combination gumbel=%s hard=%s %s' % (gum.pop(), st['hard'][0], 'train' if st['train'] else 'eval')] += 1
+            if fixed_diffres(d):
+                ctx.dist['a fixed layer invoked at two resolutions'] += 1
+            elif any(it[0] == 'fixedref' for it in d['chain']):
+                ctx.dist['a fixed layer invoked twice (same resolution)'] += 1
             if st.get('toggle_full'):
                 ctx.dist['full_cost flipped after construction (both directions)'] += 1
             if st.get('ctor'):
